@@ -229,7 +229,7 @@ fn malformed_fragment(u: &mut U, x: &Big) -> (String, &'static str) {
         23 => ("<absent>".into(), "absent"),
         24 => ("null".into(), "null"),
         25 => (["\"NaN\"", "\"Infinity\"", "\"-Infinity\"", "\"inf\""][u.below(4)].to_string(), "nan-inf"),
-        26 => (["\"0x-1\"", "\"--1\"", "\"-\"", "\"0x-\""][u.below(4)].to_string(), "bad-sign"),
+        26 => (["\"0x-1\"", "\"--1\"", "\"-\"", "\"0x-\"", "\"0x+1\"", "\"0x+ff\"", "\"0x+\"", "\"0x 1\"", "\"0x0x1\"", "\"0x0xff\"", "\"00x1\""][u.below(11)].to_string(), "bad-sign"),
         27 => (["-1e0", "-1.5", "-1e30", "-0.5"][u.below(4)].to_string(), "negative-float"),
         28 => (["-9223372036854775808", "-9223372036854775809", "-18446744073709551616"][u.below(3)].to_string(), "negative-int"),
         _ => (format!("\"-{xs}\""), "negative-dec-string"),
@@ -264,7 +264,7 @@ fn literal_fragment(u: &mut U) -> (String, &'static str) {
 fn unspecified_fragment(u: &mut U, x: &Big) -> (String, &'static str) {
     let d = x.to_dec();
     match u.below(7) {
-        0 => (format!("\"+{d}\""), "leading-plus"),
+        0 => ([format!("\"+{d}\""), format!("\"+0x{}\"", x.to_hex())][u.below(2)].clone(), "leading-plus"),
         1 => (["\"0b101\"", "\"0o17\""][u.below(2)].to_string(), "binary-octal-string"),
         2 => (format!("\"0X{}\"", x.to_hex()), "upper-case-0X"),
         3 => (["-0", "-0.0", "-0e0"][u.below(3)].to_string(), "minus-zero"),
@@ -374,7 +374,7 @@ fn gen_bytes_case(tape: Vec<u8>) -> BytesCase {
     let J::Obj(mut kv) = base else { unreachable!() };
     let data_hex = hex_lower(&model.data);
     let to_hex = hex_lower(&model.to.unwrap());
-    let n = if shape == Shape::LegacyChain { 14 } else { 22 };
+    let n = if shape == Shape::LegacyChain { 17 } else { 27 };
     let (key, val, what, expect): (&str, J, &str, Option<bool>) = match u.below(n) {
         0 => ("data", J::Str(data_hex.clone()), "data-no-prefix", Some(false)),
         1 => ("data", J::Str(format!("0x{data_hex}a")), "data-odd-length", Some(false)),
@@ -390,11 +390,16 @@ fn gen_bytes_case(tape: Vec<u8>) -> BytesCase {
         11 => ("to", J::Str(format!("0x{}", &to_hex[1..])), "to-odd-length", Some(false)),
         12 => ("to", J::Str(format!(" 0x{to_hex}")), "to-leading-space", Some(false)),
         13 => ("to", [J::Num("0".into()), J::Arr(vec![]), J::Bool(false), J::Str(String::new())][u.below(4)].clone(), "to-wrong-kind", Some(false)),
+        14 => ("data", J::Str(format!("0x0x{data_hex}")), "data-doubled-prefix", Some(false)),
+        15 => ("to", J::Str(format!("0x0x{to_hex}")), "to-doubled-prefix", Some(false)),
+        16 => ("data", J::Str(format!("0x+{data_hex}")), "data-plus-after-prefix", Some(false)),
         k => {
             let (a, slots) = model.access_list[0].clone();
             let ah = hex_lower(&a);
             let sh = slots.first().map(|s| hex_lower(s)).unwrap_or_else(|| "00".repeat(32));
-            let (addr, slot, what, expect): (String, String, &str, Option<bool>) = match k {
+            let (addr, slot, what, expect): (String, String, &str, Option<bool>) = match k - 3 {
+                22 => (format!("0x0x{ah}"), format!("0x{sh}"), "al-address-doubled-prefix", Some(false)),
+                23 => (format!("0x{ah}"), format!("0x0x{sh}"), "al-slot-doubled-prefix", Some(false)),
                 14 => (format!("0x{}", &ah[2..]), format!("0x{sh}"), "al-address-19-bytes", Some(false)),
                 15 => (format!("0x{ah}11"), format!("0x{sh}"), "al-address-21-bytes", Some(false)),
                 16 => (ah.clone(), format!("0x{sh}"), "al-address-no-prefix", Some(false)),
